@@ -232,6 +232,10 @@ Proof.
     unfold is_true, NOrder.leb in Hab. apply N.leb_le. exact Hab.
 Qed.
 
+Lemma sort_is_sorted_permutation_lemma : forall l,
+  Permutation l (sort_u16 l) /\ Sorted (fun a b => a <= b) (sort_u16 l).
+Proof. intros l. split; [apply sort_perm | apply sort_sorted]. Qed.
+
 Lemma can_be_packed_true l :
   can_be_packed l = Ok true <->
   exists u s, storage_slots_used l = Ok u /\ storage_slots_used (sort_u16 l) = Ok s /\ s < u.
